@@ -18,10 +18,13 @@ package dhcpd
 // for the oracle and its unspecified zones.
 
 import (
+	"bytes"
 	"encoding/json"
 	"fmt"
 	"math/rand"
 	"net"
+	"net/http"
+	"net/http/httptest"
 	"net/netip"
 	"os"
 	"path/filepath"
@@ -65,17 +68,22 @@ type c10Scripted struct {
 
 // c10Step is one step of a history together with what was observed.
 type c10Step struct {
-	N     int    `json:"n"`
-	T     int64  `json:"t_s"`
-	Kind  string `json:"kind"`
-	Var   string `json:"variant,omitempty"`
-	Mac   string `json:"mac,omitempty"`
-	IP    string `json:"ip,omitempty"`
-	Host  string `json:"host,omitempty"`
-	SID   string `json:"server_id,omitempty"`
-	Adv   int    `json:"advance_s,omitempty"`
-	Reply string `json:"observed,omitempty"`
-	YI    string `json:"yiaddr,omitempty"`
+	N    int    `json:"n"`
+	T    int64  `json:"t_s"`
+	Kind string `json:"kind"`
+	Var  string `json:"variant,omitempty"`
+	Mac  string `json:"mac,omitempty"`
+	IP   string `json:"ip,omitempty"`
+	Host string `json:"host,omitempty"`
+	SID  string `json:"server_id,omitempty"`
+	Adv  int    `json:"advance_s,omitempty"`
+	// ReqLease is the lease time (option 51) the client asks for, if any;
+	// Told is the one the reply announced.
+	ReqLease string `json:"requested_lease_time,omitempty"`
+	Told     string `json:"lease_time_in_reply,omitempty"`
+	Via      string `json:"via,omitempty"`
+	Reply    string `json:"observed,omitempty"`
+	YI       string `json:"yiaddr,omitempty"`
 }
 
 type c10Resv struct {
@@ -135,6 +143,14 @@ type c10Hist struct {
 
 	nAck, nExhaust, nRestart, nStaticOK, nStaticRej, nExpired, nReclaim int
 
+	// rng2 drives what was added to the generator later (requested lease
+	// times, HTTP administration), so that the older draws stay as they were.
+	rng2 *rand.Rand
+	// handlers are the HTTP handlers each created server registered.
+	handlers map[*server]map[string]http.HandlerFunc
+	cwd      string
+	nHTTP    int
+
 	// script holds the steps to run before drawn ones; cfgRejected is set when
 	// Create refused an edge configuration.
 	script      []c10Scripted
@@ -156,6 +172,11 @@ const (
 	c10Restart  = "restart"
 	// c10RestartBad is a restart during which leases.json cannot be read.
 	c10RestartBad = "restart-unreadable-db"
+	// Administration through the registered HTTP handlers.
+	c10HTTPStatus      = "http-status"
+	c10HTTPResetLeases = "http-reset-leases"
+	c10HTTPSetConfig   = "http-set-config"
+	c10HTTPReset       = "http-reset-then-set-config"
 )
 
 var c10HostPool = []string{"alpha", "beta", "Alpha", "my host", "gamma", "my_host", "printer", "BETA"}
@@ -177,7 +198,7 @@ func c10Scratch() string {
 
 func TestVerifC10(t *testing.T) {
 	rep := verifkit.New("C10", "history",
-		"case = one seeded history (pool of 2-6 addresses, gateway below the pool or - in extra histories that first lease until the pool is exhausted - at range start, at range end, inside, just above the pool, or with the pool at the network or broadcast address; 3-8 hardware addresses, 20-120 steps: DISCOVER / REQUEST selecting, init-reboot, renew / DECLINE / RELEASE with right and wrong addresses and server ids, static add/update/remove inside and outside the pool, clock advances around the lease time, restarts) run against the real server from Create with the real leases.json; invariants over Leases(), reply packets, the database file and a reload are checked after every step; non-trivial = at least one ACK and at least one of {pool exhaustion refusal, accepted static operation, restart with entries in the database}; distinct by (configuration, step sequence)")
+		"case = one seeded history (pool of 2-6 addresses, gateway below the pool or - in extra histories that first lease until the pool is exhausted - at range start, at range end, inside, just above the pool, or with the pool at the network or broadcast address; 3-8 hardware addresses, 20-120 steps: DISCOVER / REQUEST selecting, init-reboot, renew / DECLINE / RELEASE with right and wrong addresses and server ids, static add/update/remove inside and outside the pool, clock advances around the lease time, restarts; a third of DISCOVER/REQUEST carry a requested lease time (option 51); 5 % of the steps and 40 % of the static operations go through the HTTP handlers the server registered: status, reset_leases, set_config, reset followed by set_config, add/update/remove static lease) run against the real server from Create with the real leases.json; invariants over Leases(), reply packets, the database file and a reload are checked after every step; non-trivial = at least one ACK and at least one of {pool exhaustion refusal, accepted static operation, restart with entries in the database}; distinct by (configuration, step sequence)")
 	defer func() {
 		if err := rep.Write(); err != nil {
 			t.Fatal(err)
@@ -194,6 +215,17 @@ func TestVerifC10(t *testing.T) {
 	}
 	defer func() { _ = os.RemoveAll(base) }()
 
+	// The process works in an empty directory of its own, so that a lease
+	// database written to a relative path is seen (and does not land in the
+	// source tree).
+	cwd := filepath.Join(base, "cwd")
+	if old, werr := os.Getwd(); werr == nil && os.Mkdir(cwd, 0o755) == nil && os.Chdir(cwd) == nil {
+		defer func() { _ = os.Chdir(old) }()
+	} else {
+		cwd = ""
+		rep.Inconcl("cannot change into a scratch working directory")
+	}
+
 	gen := rep.Rand("main")
 	edge := rep.Rand("gateway-positions")
 	n := verifkit.Pick(800, 20000)
@@ -208,6 +240,7 @@ func TestVerifC10(t *testing.T) {
 			h = c10NewEdgeHist(rep, rand.New(rand.NewSource(edge.Int63())), filepath.Join(base, fmt.Sprintf("h%d", i)),
 				c10GwPositions[(i-n)%len(c10GwPositions)])
 		}
+		h.cwd = cwd
 		synctest.Run(h.run)
 		_ = os.RemoveAll(h.dir)
 
@@ -244,7 +277,10 @@ func TestVerifC10(t *testing.T) {
 
 	for _, ev := range []string{"reply:ack", "reply:offer", "discover_refused_pool_exhausted", "restarts",
 		"static_op_rejected", "static_op_accepted", "db_entries_crossing_restart", "acked_leases_expired",
-		"address_reused_after_expiry_or_release", "restart_unreadable_db_steps"} {
+		"address_reused_after_expiry_or_release", "restart_unreadable_db_steps",
+		"requested_lease_time_shorter_than_configured", "step:" + c10HTTPStatus, "step:" + c10HTTPResetLeases,
+		"step:" + c10HTTPSetConfig, "step:" + c10HTTPReset, "http:/control/dhcp/add_static_lease",
+		"http:/control/dhcp/remove_static_lease", "http:/control/dhcp/update_static_lease"} {
 		if rep.EventCount(ev) == 0 {
 			rep.Inconcl("event never observed: " + ev)
 		}
@@ -283,6 +319,8 @@ func c10NewHist(rep *verifkit.Report, rng *rand.Rand, dir string) *c10Hist {
 		c.Hosts = append(c.Hosts, c10WeirdHosts[rng.Intn(len(c10WeirdHosts))])
 	}
 	h.cfg = c
+	h.rng2 = rand.New(rand.NewSource(int64(c.Net)*1000003 + int64(c.PoolStart)*10007 + int64(c.Steps)*101 + int64(c.LeaseS)*7 + int64(c.Macs)))
+	h.handlers = map[*server]map[string]http.HandlerFunc{}
 
 	return h
 }
@@ -329,10 +367,14 @@ func (h *c10Hist) curKind() string {
 // create builds a server on the history's directories, the way home does,
 // without Start.
 func (h *c10Hist) create() (s *server, v4 *v4Server, err error) {
+	reg := map[string]http.HandlerFunc{}
 	s, err = Create(&ServerConfig{
 		ConfigModified: func() {},
-		Enabled:        true,
-		InterfaceName:  "verif0",
+		HTTPRegister: func(method, url string, handler http.HandlerFunc) {
+			reg[method+" "+url] = handler
+		},
+		Enabled:       true,
+		InterfaceName: "verif0",
 		Conf4: V4ServerConf{
 			GatewayIP:     h.gw,
 			SubnetMask:    netip.AddrFrom4([4]byte{255, 255, 255, 0}),
@@ -353,8 +395,211 @@ func (h *c10Hist) create() (s *server, v4 *v4Server, err error) {
 	}
 	// What Start does once the interface address is known.
 	v4.configureDNSIPAddrs([]net.IP{h.self.AsSlice()})
+	h.handlers[s] = reg
 
 	return s, v4, nil
+}
+
+// call sends a request to a handler the running server registered.
+func (h *c10Hist) call(method, url string, body any) (code int, text string) {
+	hd := h.handlers[h.srv][method+" "+url]
+	if hd == nil {
+		h.rep.Inconcl("handler not registered: " + method + " " + url)
+		h.stop = true
+
+		return 0, ""
+	}
+	var rd *bytes.Reader
+	if body != nil {
+		b, _ := json.Marshal(body)
+		rd = bytes.NewReader(b)
+	} else {
+		rd = bytes.NewReader(nil)
+	}
+	r := httptest.NewRequest(method, url, rd)
+	w := httptest.NewRecorder()
+	hd(w, r)
+	h.nHTTP++
+	h.rep.Event("http:" + url)
+
+	return w.Code, strings.TrimSpace(w.Body.String())
+}
+
+// refetch makes the monitor follow the DHCPv4 server object after the HTTP
+// API replaced it, and does what Start does once the interface is known.
+func (h *c10Hist) refetch() {
+	v4, ok := h.srv.srv4.(*v4Server)
+	if !ok {
+		h.rep.Inconcl(fmt.Sprintf("srv4 is %T", h.srv.srv4))
+		h.stop = true
+
+		return
+	}
+	if v4 != h.v4 && v4.conf != nil && len(v4.conf.dnsIPAddrs) == 0 {
+		v4.configureDNSIPAddrs([]net.IP{h.self.AsSlice()})
+	}
+	h.v4 = v4
+}
+
+// confJSON is the body of set_config for the history's configuration; DHCP
+// stays switched off there, since switching it on looks at the host's
+// interfaces and opens sockets.
+func (h *c10Hist) confJSON() map[string]any {
+	return map[string]any{
+		"enabled":        false,
+		"interface_name": "verif0",
+		"v4": map[string]any{
+			"gateway_ip":     h.gw.String(),
+			"subnet_mask":    "255.255.255.0",
+			"range_start":    h.pool[0].String(),
+			"range_end":      h.pool[len(h.pool)-1].String(),
+			"lease_duration": h.cfg.LeaseS,
+		},
+	}
+}
+
+// adminReset forgets everything in the shadow model: the administrator threw
+// the leases away.
+func (h *c10Hist) adminReset() {
+	now := time.Now()
+	for _, a := range h.acked {
+		if a.exp.After(now) {
+			h.rep.Unspec("administrative reset of the leases while acknowledged leases are running")
+
+			break
+		}
+	}
+	h.reserved, h.acked, h.offer = map[string]c10Resv{}, map[string]c10Ack{}, map[string]netip.Addr{}
+}
+
+// httpStep runs one administration step through the HTTP handlers.
+func (h *c10Hist) httpStep(kind string) {
+	s := h.cur
+	s.Kind, s.Via = kind, "http"
+	h.rep.Event("step:" + kind)
+	switch kind {
+	case c10HTTPStatus:
+		code, text := h.call(http.MethodGet, "/control/dhcp/status", nil)
+		s.Reply = fmt.Sprintf("%d", code)
+		var st struct {
+			Leases []struct {
+				IP string `json:"ip"`
+			} `json:"leases"`
+			Static []struct {
+				IP string `json:"ip"`
+			} `json:"static_leases"`
+		}
+		if code != http.StatusOK || json.Unmarshal([]byte(text), &st) != nil {
+			h.viol("http-status-fails", fmt.Sprintf("GET status answered %d %.200s", code, text), nil)
+
+			return
+		}
+		if n := len(h.srv.Leases()); n != len(st.Leases)+len(st.Static) {
+			h.viol("http-status-differs-from-leases", fmt.Sprintf("status lists %d+%d leases, Leases() %d", len(st.Leases), len(st.Static), n), nil)
+		}
+	case c10HTTPResetLeases:
+		code, text := h.call(http.MethodPost, "/control/dhcp/reset_leases", nil)
+		s.Reply = fmt.Sprintf("%d %s", code, text)
+		if code != http.StatusOK {
+			h.rep.Event("http_admin_rejected")
+
+			return
+		}
+		h.rep.Event("http_admin_accepted")
+		h.adminReset()
+		if n := len(h.srv.Leases()); n != 0 {
+			h.viol("reset-leases-leaves-leases", fmt.Sprintf("%d leases left after reset_leases", n), nil)
+		}
+	case c10HTTPSetConfig:
+		// The same pool, or one address more at its end.
+		grown := false
+		end := h.pool[len(h.pool)-1].As4()
+		next := netip.AddrFrom4([4]byte{end[0], end[1], end[2], end[3] + 1})
+		if h.rng2.Intn(3) == 0 && end[3] < 250 && next != h.gw && next != h.self && len(h.pool) < 8 {
+			grown = true
+			for _, r := range h.reserved {
+				if r.ip == next {
+					grown = false
+				}
+			}
+		}
+		s.Var = "same-pool"
+		if grown {
+			s.Var = "pool-grown-by-one"
+			h.pool = append(h.pool, next)
+			h.poolSet[next] = true
+			out := h.outIPs[:0]
+			for _, a := range h.outIPs {
+				if a != next {
+					out = append(out, a)
+				}
+			}
+			h.outIPs = out
+			h.allIPs = append(h.allIPs, next)
+			if len(h.outIPs) == 0 {
+				h.outIPs = append(h.outIPs, h.addr(210))
+				h.allIPs = append(h.allIPs, h.addr(210))
+			}
+		}
+		h.compareReload(true, func() (*server, *v4Server, error) {
+			code, text := h.call(http.MethodPost, "/control/dhcp/set_config", h.confJSON())
+			s.Reply = fmt.Sprintf("%d %s", code, text)
+			if code != http.StatusOK {
+				return nil, nil, fmt.Errorf("set_config answered %d %s", code, text)
+			}
+			h.rep.Event("http_admin_accepted")
+			h.refetch()
+
+			return h.srv, h.v4, nil
+		}, "set-config-changes-table", "after set_config with "+s.Var+" (the table is loaded from leases.json again)")
+	case c10HTTPReset:
+		code, text := h.call(http.MethodPost, "/control/dhcp/reset", nil)
+		s.Reply = fmt.Sprintf("reset %d %s", code, text)
+		if code != http.StatusOK {
+			h.rep.Event("http_admin_rejected")
+
+			return
+		}
+		h.adminReset()
+		h.refetch()
+		if h.stop {
+			return
+		}
+		if n := len(h.srv.Leases()); n != 0 {
+			h.viol("reset-leaves-leases", fmt.Sprintf("%d leases left after reset", n), nil)
+
+			return
+		}
+		code, text = h.call(http.MethodPost, "/control/dhcp/set_config", h.confJSON())
+		s.Reply += fmt.Sprintf("; set_config %d %s", code, text)
+		if code != http.StatusOK {
+			h.viol("set-config-after-reset-fails", fmt.Sprintf("set_config with the configuration the history started with answered %d %s", code, text), nil)
+
+			return
+		}
+		h.rep.Event("http_admin_accepted")
+		h.refetch()
+	}
+}
+
+// checkCwd requires the working directory of the process to stay empty: the
+// lease database belongs into DataDir.
+func (h *c10Hist) checkCwd() {
+	if h.cwd == "" {
+		return
+	}
+	es, err := os.ReadDir(h.cwd)
+	if err != nil || len(es) == 0 {
+		return
+	}
+	var names []string
+	for _, e := range es {
+		names = append(names, e.Name())
+		_ = os.RemoveAll(filepath.Join(h.cwd, e.Name()))
+	}
+	h.viol("lease-db:written-outside-data-dir",
+		fmt.Sprintf("%v appeared in the working directory of the process", names),
+		map[string]any{"working_directory": h.cwd, "data_dir": filepath.Join(h.dir, "data")})
 }
 
 func (h *c10Hist) run() {
@@ -430,6 +675,9 @@ func (h *c10Hist) run() {
 		h.trace = append(h.trace, c10Step{N: n, T: int64(time.Since(h.t0) / time.Second)})
 		h.cur = &h.trace[len(h.trace)-1]
 		h.step()
+		if !h.stop {
+			h.checkCwd()
+		}
 		if h.stop {
 			break
 		}
@@ -613,6 +861,20 @@ func (h *c10Hist) step() {
 			}
 			s.IP, s.SID = ip.String(), h.self.String()
 			h.doRequest(mac, ip, h.self, netip.Addr{}, "")
+		}
+
+		return
+	}
+	if x := h.rng2.Intn(1000); x < 50 {
+		switch {
+		case x < 15:
+			h.httpStep(c10HTTPStatus)
+		case x < 25:
+			h.httpStep(c10HTTPResetLeases)
+		case x < 40:
+			h.httpStep(c10HTTPSetConfig)
+		default:
+			h.httpStep(c10HTTPReset)
 		}
 
 		return
@@ -829,7 +1091,7 @@ func (h *c10Hist) restartUnreadable() {
 	if !restore() {
 		return
 	}
-	h.compareReload(true, ns, nv4, "restart-unreadable-db:started-with-different-table",
+	h.compareReload(true, func() (*server, *v4Server, error) { return ns, nv4, nil }, "restart-unreadable-db:started-with-different-table",
 		"the server started although leases.json could not be read ("+s.Var+"), and")
 	if !h.stop {
 		h.rep.Class("restart-unreadable-db:started-with-same-table")
@@ -947,6 +1209,7 @@ func (h *c10Hist) exchange(req *dhcpv4.DHCPv4) (typ string, yi netip.Addr) {
 				h.rep.Event("reply_lease_time_differs_from_configuration")
 			}
 			h.lastLease = lt
+			h.cur.Told = lt.String()
 		}
 	}
 	h.cur.Reply = typ
@@ -956,6 +1219,27 @@ func (h *c10Hist) exchange(req *dhcpv4.DHCPv4) (typ string, yi netip.Addr) {
 	h.rep.Event("reply:" + typ)
 
 	return typ, yi
+}
+
+// leaseOpt adds, to a third of the messages, the lease time the client would
+// like (option 51): 1 s, 2 s, half the configured time, the same, longer, 0,
+// the maximum.  What counts for the model is the time the ACK announces.
+func (h *c10Hist) leaseOpt(mods []dhcpv4.Modifier) []dhcpv4.Modifier {
+	if h.rng2.Intn(3) != 0 {
+		return mods
+	}
+	l := time.Duration(h.cfg.LeaseS) * time.Second
+	d := []time.Duration{time.Second, 2 * time.Second, l / 2, l, 3 * l, 0, 0xffffffff * time.Second}[h.rng2.Intn(7)]
+	h.cur.ReqLease = d.String()
+	h.rep.Event("message_with_requested_lease_time")
+	switch {
+	case d > 0 && d < l:
+		h.rep.Event("requested_lease_time_shorter_than_configured")
+	case d > l:
+		h.rep.Event("requested_lease_time_longer_than_configured")
+	}
+
+	return append(mods, dhcpv4.WithOption(dhcpv4.OptIPAddressLeaseTime(d)))
 }
 
 func c10Mods(mac net.HardwareAddr, mt dhcpv4.MessageType, host string, xid dhcpv4.TransactionID) []dhcpv4.Modifier {
@@ -1065,6 +1349,7 @@ func (h *c10Hist) doDiscover(mac net.HardwareAddr, reqIP netip.Addr, host string
 	_, known := h.claim(ms)
 
 	mods := c10Mods(mac, dhcpv4.MessageTypeDiscover, host, h.nextXID())
+	mods = h.leaseOpt(mods)
 	if reqIP.IsValid() {
 		mods = append(mods, dhcpv4.WithOption(dhcpv4.OptRequestedIPAddress(reqIP.AsSlice())))
 	}
@@ -1114,6 +1399,7 @@ func (h *c10Hist) doDiscover(mac net.HardwareAddr, reqIP netip.Addr, host string
 func (h *c10Hist) doRequest(mac net.HardwareAddr, reqIP, sid, ciaddr netip.Addr, host string) {
 	ms := mac.String()
 	mods := c10Mods(mac, dhcpv4.MessageTypeRequest, host, h.nextXID())
+	mods = h.leaseOpt(mods)
 	if reqIP.IsValid() {
 		mods = append(mods, dhcpv4.WithOption(dhcpv4.OptRequestedIPAddress(reqIP.AsSlice())))
 	}
@@ -1214,9 +1500,23 @@ func (h *c10Hist) doStatic(kind string, mac net.HardwareAddr, ip netip.Addr, hos
 	ms := mac.String()
 	l := &dhcpsvc.Lease{HWAddr: append(net.HardwareAddr(nil), mac...), IP: ip, Hostname: host, IsStatic: true}
 	var err error
-	if kind == c10StAdd {
+	switch viaHTTP := h.rng2.Intn(5) < 2; {
+	case viaHTTP:
+		h.cur.Via = "http"
+		url := "/control/dhcp/add_static_lease"
+		if kind != c10StAdd {
+			url = "/control/dhcp/update_static_lease"
+		}
+		code, text := h.call(http.MethodPost, url, map[string]any{"mac": ms, "ip": ip.String(), "hostname": host})
+		if h.stop {
+			return
+		}
+		if code != http.StatusOK {
+			err = fmt.Errorf("%d %s", code, text)
+		}
+	case kind == c10StAdd:
 		err = h.srv.srv4.AddStaticLease(l)
-	} else {
+	default:
 		err = h.srv.srv4.UpdateStaticLease(l)
 	}
 	if err != nil {
@@ -1310,7 +1610,20 @@ func (h *c10Hist) genStaticRemove(s *c10Step) {
 		l = &dhcpsvc.Lease{HWAddr: h.macs[h.rng.Intn(len(h.macs))], IP: h.otherIP(netip.Addr{}), Hostname: h.pickHost()}
 	}
 	s.Mac, s.IP, s.Host = l.HWAddr.String(), l.IP.String(), l.Hostname
-	err := h.srv.srv4.RemoveStaticLease(&dhcpsvc.Lease{HWAddr: l.HWAddr, IP: l.IP, Hostname: l.Hostname, IsStatic: true})
+	var err error
+	if h.rng2.Intn(5) < 2 {
+		s.Via = "http"
+		code, text := h.call(http.MethodPost, "/control/dhcp/remove_static_lease",
+			map[string]any{"mac": l.HWAddr.String(), "ip": l.IP.String(), "hostname": l.Hostname})
+		if h.stop {
+			return
+		}
+		if code != http.StatusOK {
+			err = fmt.Errorf("%d %s", code, text)
+		}
+	} else {
+		err = h.srv.srv4.RemoveStaticLease(&dhcpsvc.Lease{HWAddr: l.HWAddr, IP: l.IP, Hostname: l.Hostname, IsStatic: true})
+	}
 	if err != nil {
 		s.Reply = "rejected: " + err.Error()
 		h.nStaticRej++
@@ -1560,13 +1873,13 @@ func (h *c10Hist) view(s *server, hosts []string) (v c10View) {
 // what it answers with what the running one answers.  With swap the new
 // server replaces the running one (a restart); otherwise it is dropped.
 func (h *c10Hist) checkReload(swap bool) {
-	h.compareReload(swap, nil, nil, "", "")
+	h.compareReload(swap, nil, "", "")
 }
 
 // compareReload is checkReload with, optionally, a server that has been
 // created already (ns non-nil); differences are then reported under diffKey
 // with what prepended.
-func (h *c10Hist) compareReload(swap bool, ns *server, nv4 *v4Server, diffKey, what string) {
+func (h *c10Hist) compareReload(swap bool, mk func() (*server, *v4Server, error), diffKey, what string) {
 	after := ":after-" + h.cur.Kind
 	mem := h.internal()
 	hostSet := map[string]bool{}
@@ -1612,14 +1925,14 @@ func (h *c10Hist) compareReload(swap bool, ns *server, nv4 *v4Server, diffKey, w
 		h.rep.Event("reload_probes")
 	}
 	before := h.view(h.srv, hosts)
-	if ns == nil {
-		var err error
-		ns, nv4, err = h.create()
-		if err != nil {
-			h.viol("restart-fails"+after, "Create on the same directory failed: "+err.Error(), nil)
+	if mk == nil {
+		mk = h.create
+	}
+	ns, nv4, err := mk()
+	if err != nil {
+		h.viol("restart-fails"+after, "loading the table from the same directory failed: "+err.Error(), nil)
 
-			return
-		}
+		return
 	}
 	afterV := h.view(ns, hosts)
 
